@@ -370,6 +370,45 @@ func runC07(ctx *core.Ctx) {
 			ctx.Add("substSpec", specArgs{Ast: ast, Env: env})
 		}
 	})
+	// greedy tails (round 6; seed C08-8): an operator substitution, then on the same line text that holds an escape
+	// `$$` or an unbraced `$NAME` but no further `${`, then a later `}` — the regexp's greedy `.*` runs to that last
+	// `}`, the match is cut at the first balanced one and the rest must get a substitution pass of its own.
+	// Systematic: operator × argument × tail × (line continues or not) × the four states; all three observation points.
+	{
+		tailArgs := [][]seg{{{Lit: str("x")}}, {}, {{Var: str("B"), Braced: true}}, {{Lit: str("{}")}}}
+		tails := [][]seg{
+			{{Lit: str(" ")}, {Esc: &tru}, {Lit: str(" }")}},
+			{{Lit: str(" ")}, {Var: str("A")}, {Lit: str(" }")}},
+			{{Esc: &tru}, {Lit: str("}")}},
+			{{Var: str("B")}, {Lit: str("}")}},
+			{{Lit: str("/")}, {Var: str("B")}, {Esc: &tru}, {Lit: str("{}")}},
+			{{Lit: str(" ")}, {Esc: &tru}, {Var: str("A")}, {Lit: str(" } ")}, {Esc: &tru}, {Lit: str("}}")}},
+			{{Lit: str(" ")}, {Esc: &tru}, {Lit: str(" } ")}, {Var: str("B"), Braced: true}}, // … and one that does hold a `${`
+		}
+		for _, o := range ops {
+			for _, n := range []string{"A", "B"} {
+				for _, arg := range tailArgs {
+					for _, tl := range tails {
+						for _, nl := range []bool{false, true} {
+							ast := append([]seg{{Op: str(n), O: o, Arg: arg}}, tl...)
+							if nl {
+								ast = append(append([]seg{{Lit: str("l0 }\n")}}, ast...), seg{Lit: str("\n} ")}, seg{Esc: &tru})
+							}
+							for _, env := range specEnvs {
+								ctx.Count("greedy-tail")
+								ctx.Add("substSpec", specArgs{Ast: ast, Env: env})
+								ctx.Add("substStr", substArgs{T: renderSegs(ast), Env: env})
+								if !nl {
+									ctx.Count("greedy-tail-load")
+									ctx.Add("substLoad", specArgs{Ast: ast, Env: env})
+								}
+							}
+						}
+					}
+				}
+			}
+		}
+	}
 	// random deeper ASTs
 	var rnd func(depth int, inArg bool) []seg
 	lits := []string{"x", " ", "lit", "a-b", ":", "?", "+", "é", "1"}
@@ -449,6 +488,8 @@ func runC07(ctx *core.Ctx) {
 	runC07Opts(ctx, rnd)
 	// 6. the mapping the loader hands to Substitute at each of its call sites (include / extends / name / options)
 	runC07Sites(ctx, rnd)
+	// 7. random trees of documents: the stateful walk (heap of interp.Options cells) vs the loader
+	runC07Docs(ctx, rnd)
 	ctx.Wait()
 	reportStrClasses(ctx)
 }
